@@ -73,9 +73,10 @@ def declare_problem(P, objective, weights=None):
     return pb, a, b, objs
 
 
-def trace_shape(objective, cfg, slow_at=(), ramp=False, max_checks=5, weights=None):
+def trace_shape(objective, cfg, slow_at=(), ramp=False, max_checks=5, weights=None, prop=None, only=None, prefix="trace"):
+    """prop / only / prefix: the same traces serve C15 (optimisers and options agree on the optimum)"""
     tag = ",".join(f"{k}={v}" for k, v in sorted(cfg.items())) or "default"
-    name = f"trace/{objective}/{tag}/clock_{'ramp' if ramp else ('slow' + ''.join(map(str, slow_at)) if slow_at else 'fast')}"
+    name = f"{prefix}/{objective}/{tag}/clock_{'ramp' if ramp else ('slow' + ''.join(map(str, slow_at)) if slow_at else 'fast')}"
     if weights:
         name += f"/w_{weights[0]}_{weights[1]}"
 
@@ -94,7 +95,8 @@ def trace_shape(objective, cfg, slow_at=(), ramp=False, max_checks=5, weights=No
                    shape_slow=bool(slow_at), shape_ramp=ramp)
 
     def obligations(ctx):
-        return [Ob(f"{PROP}/{name}/{n}", "custom", fn=f, replayer="checks.c07:replay_trace") for n, f in TRACE_OBLIGATIONS.items()]
+        return [Ob(f"{prop or PROP}/{name}/{n}", "custom", fn=f, replayer="checks.c07:replay_trace") for n, f in TRACE_OBLIGATIONS.items()
+                if only is None or n in only]
 
     sh = Shape(name, build, obligations, initialize=False)
     sh.grid = False
@@ -119,7 +121,10 @@ def _info(ctx):
 
 def _decide(path, ctx, negated_goal, timeout=30000):
     base = [formula.to_z3(x) for x in list(path.assume) + list(path.pc)]
-    v, m, _ = formula.solve(base + list(negated_goal), timeout)
+    goal = list(negated_goal)
+    # debug mode: every assertion is tracked by a literal that z3 assumes at check() time
+    from symx.harness import tracking_literals
+    v, m, _ = formula.solve(base + goal + tracking_literals([g for g in goal if z3.is_expr(g)]), timeout)
     return v, m
 
 
